@@ -275,6 +275,11 @@ func NewParametersFromLiteral(residualParameters ckks.Parameters, btpLit Paramet
 	// For each bit-size sample a pair-wise coprime prime
 	for logqi, k := range primesBitLenNew {
 
+		// The sizes derive from the literal (sums of scales, LogP): only primes of 1 to 61 bits can be generated and used
+		if logqi < 1 || logqi > 61 {
+			return Parameters{}, fmt.Errorf("cannot NewParametersFromLiteral: invalid prime bit-size %d (must be in [1, 61])", logqi)
+		}
+
 		// Creates a new prime generator
 		/* #nosec G115 -- logqi cannot be negative */
 		g := ring.NewNTTFriendlyPrimesGenerator(uint64(logqi), NthRoot)
